@@ -1,4 +1,5 @@
 import Evl.Lemmas.RegistryClose
+import Evl.Generated.RegistryFacts
 /-!
 # C07 — overwrite policy: DenyOverwrite is sticky, AllowOverwrite swaps
 
@@ -364,6 +365,12 @@ theorem node_rebinding (b : Broker) (id ty : Nat) (beh : Beh) (cf : Bool) (pol :
 pipelines meets the old one or the new one, never both. -/
 theorem one_version (ops : List Op) : ((run init ops).pipes.map key).Nodup :=
   (inv_run ops inv_init).pkeys
+
+/-- ... on the source: an overwrite is one `Store` on a pipeline map that is exactly a `sync.Map` (one
+field; `Range` / `Store` / `Delete` are one call on it each — nothing cached between a registration
+and the Sends that follow it), never Delete-then-Store -/
+theorem one_version_on_source :
+    Evl.Generated.regPipeStores = 1 ∧ Evl.Generated.regPipeDeletes = 0 ∧ Evl.Generated.graphMapPlain = true := by decide
 
 /-- Non-vacuity. -/
 def demo : List Op :=
